@@ -496,7 +496,12 @@ class Executor:
                 if isinstance(t.value, ast.Name):
                     fields.add((t.value.id, t.attr))
                 else:
-                    raise OutsideSubset('assignment target', t)
+                    h = getattr(ex.reg, 'nested_attr_effect', None)
+                    g = h(ast.unparse(t)) if h is not None else None
+                    if g is None:
+                        raise OutsideSubset('assignment target', t)
+                    for x in g:
+                        ghosts.add(x)
             elif isinstance(t, ast.Subscript):
                 base = t.value
                 while isinstance(base, ast.Subscript):
